@@ -120,6 +120,6 @@ PROP = Prop(
           "complements/aliases; unknown x_axis raises ValueError. Non-trivial = some curve of the "
           "case has >=3 distinct thresholds (score_class=neg and decreasing axes are always among "
           "the 32 curves of a case)."),
-    clauses=[Clause("roc", check, strategy=_cases(), quick=150, thorough=800, quick_shards=4,
+    clauses=[Clause("roc", check, strategy=_cases(), quick=150, thorough=800, quick_shards=4, fuzz=3000,
                     min_nontrivial=100, doc="roc(): rates, order, support, counts, views")],
 )
